@@ -132,7 +132,7 @@ class Ctx:
         return d
 
     def tlc(self, module, cfg, workers=None, timeout=1800, env=None, extra=(), simulate=None,
-            depth=None, deadlock=None, label=None, record=True, allow_violation=False):
+            depth=None, deadlock=None, label=None, record=True, allow_violation=False, heap="4g"):
         """Run TLC on spec/<module>.tla with spec/<cfg>. Returns dict with states, distinct,
         ok, violated (name or None), output. Raises ToolError on TLC errors that are not
         property violations."""
@@ -151,10 +151,24 @@ class Ctx:
         e = dict(os.environ)
         if env:
             e.update({k: str(v) for k, v in env.items()})
+        # bound the JVM heap: the tlc wrapper would take 25% of RAM per process, and several checks
+        # (or several TLC runs of one check) may run at the same time
+        jto = e.get("JAVA_TOOL_OPTIONS", "")
+        if "-Xmx" not in jto:
+            e["JAVA_TOOL_OPTIONS"] = (jto + " -Xmx" + heap).strip()
         t0 = time.time()
         try:
-            r = subprocess.run(["timeout", str(timeout)] + argv, cwd=d, env=e,
-                               capture_output=True, text=True)
+            for attempt in range(3):
+                r = subprocess.run(["timeout", str(timeout)] + argv, cwd=d, env=e,
+                                   capture_output=True, text=True)
+                # killed from outside (OOM killer, another job's pkill): not a verdict, try again
+                if r.returncode in (-9, -15, 137, 143) and "is violated" not in r.stdout:
+                    log("TLC on %s/%s was killed (rc=%d), retrying" % (module, cfg, r.returncode))
+                    time.sleep(5 * (attempt + 1))
+                    shutil.rmtree(meta, ignore_errors=True)
+                    os.makedirs(meta, exist_ok=True)
+                    continue
+                break
         finally:
             shutil.rmtree(meta, ignore_errors=True)
         out = r.stdout + r.stderr
